@@ -3,6 +3,7 @@ package c20
 import (
 	"fmt"
 	"math/rand"
+	"sort"
 	"strings"
 )
 
@@ -72,6 +73,12 @@ func Concretise(ac AbstractCase, idx int, rng *rand.Rand) (*MergeCase, error) {
 	}
 
 	b := bs[(idx+rng.Intn(len(bs)))%len(bs)]
+	swap := rng.Intn(2)
+
+	if fileHasEqualItems(b, ac, idx+swap) {
+		b = bs[0]
+	}
+
 	if len(b.Leaves) != len(ac.Src) {
 		return nil, fmt.Errorf("binding %s has %d leaves, case has %d", b.Name, len(b.Leaves), len(ac.Src))
 	}
@@ -85,8 +92,6 @@ func Concretise(ac AbstractCase, idx int, rng *rand.Rand) (*MergeCase, error) {
 	if mc.Order == nil {
 		mc.Order = []int{}
 	}
-
-	swap := rng.Intn(2)
 
 	for i, l := range b.Leaves {
 		fv := (i+idx+swap)%2 + 1
@@ -117,6 +122,42 @@ func Concretise(ac AbstractCase, idx int, rng *rand.Rand) (*MergeCase, error) {
 	}
 
 	return mc, nil
+}
+
+// fileHasEqualItems: would the file part of the case hold two equal items in a list of b.Unique?
+func fileHasEqualItems(b Binding, ac AbstractCase, rot int) bool {
+	if len(b.Leaves) != len(ac.Src) {
+		return false
+	}
+
+	for _, list := range b.Unique {
+		items := map[string][]string{}
+
+		for i, l := range b.Leaves {
+			rest, ok := strings.CutPrefix(l.Path, list+".")
+			if !ok || (ac.Src[i] != "F" && ac.Src[i] != "B") {
+				continue
+			}
+
+			el, sub, _ := strings.Cut(rest, ".")
+			items[el] = append(items[el], sub+"="+l.Vals[(i+rot)%2])
+		}
+
+		seen := map[string]bool{}
+
+		for _, kv := range items {
+			sort.Strings(kv)
+
+			k := strings.Join(kv, "\x00")
+			if seen[k] {
+				return true
+			}
+
+			seen[k] = true
+		}
+	}
+
+	return false
 }
 
 // FileOf renders the file part of a case ("" when no leaf is given by the file).
